@@ -13,9 +13,11 @@ An interpreter for the bodies of widgets/list `List`, widgets/pager `Model` and 
     in `χ`; a cell literal `vaxis.Cell{Character: c, …}` is its character;
   * a style is its `Attribute` (`vaxis.Style{}` = 0);
   * the pager's `d.lines` is a list of lines; the local that points to the line under construction
-    (`l := &line{}`) is `lv` with contents `cur`.  Pointer aliasing is NOT modelled by a heap:
-    instead `shared` records that the line `lv` points to has been appended to `d.lines`, and
-    `l.append(…)` on a shared line is `stuck` (the code always replaces `l` by a fresh line first);
+    (`l := &line{}`) is `lv` with contents `cur`.  Pointer aliasing is modelled EXACTLY without a heap:
+    `alias` lists the positions of `d.lines` that hold the very line object `lv` points to (they are
+    recorded by `d.lines = append(d.lines, l)` and forgotten when `l` is replaced by a fresh line), and
+    `l.append(…)` updates `cur` AND those positions — there is one pointer local and one list of
+    pointers, so this is the whole sharing structure;
   * the window: `v0.Size()` = (W, H); `v0.Fill(…)` blanks it; `v0.SetCell(col, row, cell)` sets the
     cell when it lies inside (C11's clipping: `Props.C19.setcell_outside_ignored`);
     `v0.Println(i, vaxis.Segment{Text: item, Style: st})` records a row when `0 ≤ i < H`
@@ -52,7 +54,7 @@ structure M where
   lines  : List PLine
   lv     : String
   cur    : PLine
-  shared : Bool
+  alias  : List Nat
   win    : Win
   rows   : List Row
 
@@ -200,9 +202,9 @@ def atom (R : Ro) (m : M) (l : GoSyn.Line) : Res :=
     match R.call fn with
     | Option.none => .error (.stuck ("call " ++ fn))
     | some g =>
-      match g { m with ρ := [], ls := [], lv := "", cur := [], shared := false } with
+      match g { m with ρ := [], ls := [], lv := "", cur := [], alias := [] } with
       | .error e => .error e
-      | .ok (m', _) => ok { m' with ρ := m.ρ, χ := m.χ, ls := m.ls, lv := m.lv, cur := m.cur, shared := m.shared }
+      | .ok (m', _) => ok { m' with ρ := m.ρ, χ := m.χ, ls := m.ls, lv := m.lv, cur := m.cur, alias := m.alias }
   | .exprS, .arg (.call (.var "v0.Fill")) _, _ => ok { m with win := blank R.W R.H }
   | .exprS, .arg (.arg (.arg (.call (.var "v0.SetCell")) c) r) (.var x), _ =>
     match evI m c, evI m r, lookupC m.χ x with
@@ -216,15 +218,15 @@ def atom (R : Ro) (m : M) (l : GoSyn.Line) : Res :=
   | .exprS, .arg (.call (.var f)) (.var x), _ =>
     if f = m.lv ++ ".append" then
       match lookupC m.χ x with
-      | some c => if m.shared then .error (.stuck "append to a shared line") else ok { m with cur := m.cur ++ [c] }
+      | some c => ok { m with cur := m.cur ++ [c], lines := m.alias.foldl (fun ls i => ls.set i (m.cur ++ [c])) m.lines }
       | Option.none => .error (.stuck "append")
     else .error (.stuck "call")
-  | .assign, .var "d.lines", .lit "[]*line{}" => ok { m with lines := [] }
+  | .assign, .var "d.lines", .lit "[]*line{}" => ok { m with lines := [], alias := [] }
   | .assign, .var "d.lines", .arg (.arg (.call (.var "append")) (.var "d.lines")) (.var x) =>
-    if x = m.lv then ok { m with lines := m.lines ++ [m.cur], shared := true } else .error (.stuck "append to lines")
-  | .define, .var x, .un "&" (.lit "line{}") => ok { m with lv := x, cur := [], shared := false }
+    if x = m.lv then ok { m with lines := m.lines ++ [m.cur], alias := m.alias ++ [m.lines.length] } else .error (.stuck "append to lines")
+  | .define, .var x, .un "&" (.lit "line{}") => ok { m with lv := x, cur := [], alias := [] }
   | .assign, .var x, .un "&" (.lit "line{}") =>
-    if x = m.lv then ok { m with cur := [], shared := false } else .error (.stuck "line pointer")
+    if x = m.lv then ok { m with cur := [], alias := [] } else .error (.stuck "line pointer")
   | .assign, .var "d.items", .var y =>
     match look m ("#" ++ y) with
     | some n => ok (store m "#d.items" n)
@@ -311,7 +313,7 @@ def exec (R : Ro) : Stmt → Nat → M → Res
 
 def noCall : String → Option (M → Res) := fun _ => Option.none
 
-def m0 : M := ⟨[], [], [], [], [], "", [], false, [], []⟩
+def m0 : M := ⟨[], [], [], [], [], "", [], [], [], []⟩
 
 /-- The parsed bodies (regenerated: `Gen.WidSkel`; or the expected copy). -/
 structure Bodies where
